@@ -15,6 +15,12 @@ code -> spec: seeded random packages installed on scratch roots and then perturb
               Unmerge_Trace replays the syscalls through FsModel (FinalState: model == real snapshot) and
               judges the real snapshot against Unmerge!UnmergeExpected / ReplaceExpected: clauses NotRemoved,
               EmptyDirLeft, Unlisted, ThroughSymlink, BaseDir, KeepsNew, ListedButKept, Frame, Outcome_Raised.
+sessions    : scenarios are grouped in sessions of 2-3 that run one after the other in this one process on the
+              SAME root path, the root rebuilt with a different layout in between (directed family: lib real
+              directory <-> lib a symlink to lib64, with the packages naming files through either side): the
+              expectation of every operation is a function of the root as it is before THAT operation, so
+              anything an earlier operation left behind in the process (caches keyed by path) shows up as
+              KeepsNew / NotRemoved.  A violation's replay detail carries the session history.
 spec -> code: the live roots of Unmerge_MC are small enough that the random generator covers their shapes;
               the Merge_Cases pairs are replayed as replace scenarios (old package = the pre-existing objects).
 Carve-outs (fate wild): a listed non-directory whose live object is a directory (only generated at engine
@@ -36,8 +42,9 @@ SUBS = ["lib", "share", "bin", "pkg", "b c"]
 LEAVES = ["f", "g h", "é", "conf", "x.so"]
 
 
-def gen_pkg(r_, size):
+def gen_pkg(r_, size, tops=None):
     ents, dirs, paths = [], [], set()
+    tops = tops or TOPS
 
     def add(p, t, **kw):
         if p in paths:
@@ -54,7 +61,7 @@ def gen_pkg(r_, size):
             dirs.append(p)
 
     for _ in range(size):
-        top = r_.choice(TOPS)
+        top = r_.choice(tops)
         d = top if r_.random() < 0.4 else f"{top}/{r_.choice(SUBS)}"
         if r_.random() < 0.25:
             add(d, "dir")
@@ -70,13 +77,26 @@ def gen_pkg(r_, size):
     return ents
 
 
-def gen_scenario(r_, size):
-    via = r_.choice(["ops", "engine", "engine", "replace", "replace"])
-    oldp = gen_pkg(r_, r_.randint(1, size))
+def gen_scenario(r_, size, via=None, alias=None, tops=None, cross=False):
+    """alias: None = random; True / False force the live root to have (not to have) lib as a symlink to lib64."""
+    via = via or r_.choice(["ops", "engine", "engine", "replace", "replace"])
+    oldp = gen_pkg(r_, r_.randint(1, size), tops)
+    if cross:  # a file below lib that is installed and that the new package names through lib64
+        if not any(e["path"] == "lib" for e in oldp):
+            oldp.append(dict(path="lib", type="dir", content="", target="", grp=0, src="local", **m18._attrs(r_, m18.MODES_D)))
+        marked = next((e for e in oldp if e["type"] == "file" and e["path"].startswith("lib/")), None)
+        if marked is None:
+            marked = dict(path="lib/" + r_.choice(LEAVES), type="file", content="pkg-x", target="", grp=0, src="local",
+                          **m18._attrs(r_, m18.MODES_F))
+            if all(e["path"] != marked["path"] for e in oldp):
+                oldp.append(marked)
+            else:
+                marked = None
+    else:
+        marked = None
     live, taken = [], {}
-    alias = None
-    if any(e["path"] == "lib" for e in oldp) and r_.random() < 0.5:
-        alias = "lib64"
+    want = r_.random() < 0.5 if alias is None else alias
+    alias = "lib64" if want and any(e["path"] == "lib" for e in oldp) else None
 
     def put(p, t, **kw):
         if p in taken:
@@ -105,6 +125,8 @@ def gen_scenario(r_, size):
         if alias and e["path"] == "lib":
             continue
         x = r_.random()
+        if marked is not None and (e is marked or marked["path"].startswith(e["path"] + "/")):
+            x = 0.9  # installed as recorded
         kw = dict(mode=e["mode"], uid=e["uid"], gid=e["gid"], mtime=e["mtime"])
         if x < 0.08:
             continue  # gone
@@ -142,6 +164,9 @@ def gen_scenario(r_, size):
     if via == "replace":
         for e in oldp:
             x = r_.random()
+            if e is marked:
+                newp.append(dict(e, content="new-" + e["content"], path="lib64" + e["path"][3:]))
+                continue
             if x < 0.5 and taken.get(phys(e["path"])) == ("dir" if e["type"] == "dir" else taken.get(phys(e["path"]))):
                 ne = dict(e)
                 if e["type"] == "file":
@@ -149,6 +174,9 @@ def gen_scenario(r_, size):
                 # the new package may name the same object through the other side of a symlinked directory
                 if alias and e["path"].startswith("lib/") and r_.random() < 0.6:
                     ne["path"] = alias + e["path"][3:]
+                # ... and without the symlink the same two names are different objects
+                elif not alias and e["path"].startswith("lib/") and e["type"] != "dir" and r_.random() < 0.3:
+                    ne["path"] = "lib64" + e["path"][3:]
                 if taken.get(phys(ne["path"])) in (None, "dir" if e["type"] == "dir" else taken.get(phys(ne["path"]))) and \
                         (e["type"] == "dir" or taken.get(phys(ne["path"])) != "dir"):
                     newp.append(ne)
@@ -170,8 +198,29 @@ def gen_scenario(r_, size):
                 newp.append(d)
                 have.add(par)
                 par = os.path.dirname(par)
+    # two entries of one package naming the same object (lib/x and lib64/x with lib -> lib64) are outside the
+    # property's domain (Expected: "order-dependent"): keep the first
+    seen_phys, uniq = set(), []
+    for n in newp:
+        if phys(n["path"]) not in seen_phys:
+            seen_phys.add(phys(n["path"]))
+            uniq.append(n)
+    newp = uniq
     mode = "offset" if via != "ops" else r_.choice(["offset", "none"])
     return dict(old=live, rm=oldp, cset=newp, mode=mode, via=via)
+
+
+def gen_session(r_, size):
+    """Operations that run one after the other in ONE process on ONE root path while the layout of the root
+    changes in between (the lib -> lib64 migration and its reverse): what an operation removes must depend
+    on the root as it is now, not on what an earlier operation saw."""
+    first = r_.random() < 0.5
+    tops = ["lib", "lib", "usr", "opt"]
+    steps = [gen_scenario(r_, size, via=r_.choice(["replace", "replace", "replace", "engine"]), alias=first, tops=tops, cross=True),
+             gen_scenario(r_, size, via="replace", alias=not first, tops=tops, cross=True)]
+    if r_.random() < 0.5:
+        steps.append(gen_scenario(r_, size, via=r_.choice(["replace", "engine", "ops"]), alias=first, tops=tops))
+    return steps
 
 
 def from_merge_case(sc):
@@ -245,14 +294,23 @@ def run(ck):
     r_ = rng(20)
     base = mktmp("c20")
     if ck.replay_case:
-        scenarios = [ck.replay_case["detail"]["scenario"]]
+        d = ck.replay_case["detail"]
+        sessions = [list(d.get("history", [])) + [d["scenario"]]]
     else:
         exported = [from_merge_case(sc) for sc in m18.export_scenarios(ck)]
         exported = r_.sample(exported, ck.pick(40, 700))
-        scenarios = exported + [gen_scenario(r_, ck.pick(7, 10)) for _ in range(ck.pick(70, 1500))]
+        rand = [gen_scenario(r_, ck.pick(7, 10)) for _ in range(ck.pick(50, 1200))]
+        # every session runs on its own root PATH, its scenarios one after the other on that same path
+        sessions = [exported[k:k + 3] for k in range(0, len(exported), 3)] + [rand[k:k + 3] for k in range(0, len(rand), 3)]
+        sessions += [gen_session(r_, ck.pick(6, 9)) for _ in range(ck.pick(14, 150))]
+    scenarios, session_of = [], {}
+    for sid, steps in enumerate(sessions):
+        for k, sc in enumerate(steps):
+            session_of[len(scenarios)] = (sid, steps[:k])
+            scenarios.append(sc)
     events, infos = [], {}
     for tid, sc in enumerate(scenarios):
-        w = m18.World(os.path.join(base, f"w{tid}"), sc)
+        w = m18.World(os.path.join(base, f"s{session_of[tid][0]}"), sc)
         evs, info = m18.run_recorded(tid, w, make_op(w), unmerge_init(w))
         events += evs
         infos[tid] = info
@@ -275,7 +333,7 @@ def run(ck):
         for v in verdicts:
             sc, info = scenarios[v["tid"]], infos[v["tid"]]
             path = v["extra"][0] if v["extra"] else ""
-            ck.violation(v["clause"], dict(scenario=sc, path=path, via=sc["via"], offset_mode=sc["mode"],
+            ck.violation(v["clause"], dict(scenario=sc, history=session_of[v["tid"]][1], path=path, via=sc["via"], offset_mode=sc["mode"],
                                            old_type=m18.obj_type(info["before"], path), new_type=m18.obj_type(info["after"], path),
                                            raised=type(info["exc"]).__name__ if info["exc"] else "",
                                            removed_anything=info["before"] != info["after"]))
